@@ -325,6 +325,27 @@ func wrongLayouts(l geom.Layout) []geom.Layout {
 	}
 }
 
+func c02ReserveOp() c02Op {
+	return c02Op{"Reserve(room for 3 more coordinates)", func(s *c02State) string {
+		// capacity is no part of the list of parts: reserving changes nothing observable
+		n := 3
+		if st := s.g.Stride(); st > 0 {
+			n += len(s.g.FlatCoords()) / st
+		}
+		switch t := s.g.(type) {
+		case *geom.Polygon:
+			t.Reserve(n)
+		case *geom.MultiPoint:
+			t.Reserve(n)
+		case *geom.MultiLineString:
+			t.Reserve(n)
+		case *geom.MultiPolygon:
+			t.Reserve(n)
+		}
+		return ""
+	}}
+}
+
 func c02Alphabet(k ref.Kind, l geom.Layout) []c02Op {
 	var ops []c02Op
 	pushModel := func(s *c02State, pm *ref.G) { s.m.parts = append(s.m.parts, pm.Clone()) }
@@ -437,6 +458,11 @@ func c02Alphabet(k ref.Kind, l geom.Layout) []c02Op {
 			s.m, s.om = s.om, s.m
 			return ""
 		}})
+		// (Reserve only for the layouts that are explored to a smaller depth - it doubles the
+		// number of distinct capacity states)
+		if l != geom.XY && l != geom.XYZ && l != geom.XYM {
+			ops = append(ops, c02ReserveOp())
+		}
 		ops = append(ops, c02Op{"Swap(the receiver itself)", func(s *c02State) string {
 			swapT(s.g, s.g) // exchanging a value with itself leaves it as it is
 			return ""
